@@ -1,5 +1,6 @@
 PROP = dict(
-    modules=["Shangrla.Props.C09", "Shangrla.Props.RiskLimit"],
+    modules=["Shangrla.Props.C09", "Shangrla.Props.RiskLimit", "Shangrla.Props.RiskLimitStyle",
+             "Shangrla.Props.RiskLimitPlurality", "Shangrla.Props.RiskLimitComparison", "Shangrla.Props.RiskLimitIID"],
     theorems=["Shangrla.C09.pvalues_are_tests", "Shangrla.C09.pvalues_are_tests_pos", "Shangrla.C09.contest_max",
               "Shangrla.C09.audit_max", "Shangrla.C09.audit_max_nan_iff", "Shangrla.C09.audit_max_largest",
               "Shangrla.C09.proved_sticky", "Shangrla.C09.proved_of_le", "Shangrla.C09.dicts_mirror",
@@ -12,7 +13,16 @@ PROP = dict(
               "Shangrla.RiskLimit.complete_forces", "Shangrla.RiskLimit.hitG_map", "Shangrla.RiskLimit.hitG_mono",
               "Shangrla.RiskLimit.audit_risk_limit", "Shangrla.RiskLimit.audit_risk_limit_any",
               "Shangrla.RiskLimit.audit_risk_limit_alpha_fixed", "Shangrla.RiskLimit.audit_risk_limit_run",
-              "Shangrla.RiskLimit.example_exact"],
+              "Shangrla.RiskLimit.example_exact",
+              # style-based sampling (an assertion uses only the cards listing its contest): the sub-population lemma
+              "Shangrla.RiskLimit.sum_picks_filterMap", "Shangrla.RiskLimit.hitEv_fuel", "Shangrla.RiskLimit.hitG_filterMap",
+              "Shangrla.RiskLimit.audit_risk_limit_style", "Shangrla.RiskLimit.audit_risk_limit_style_run",
+              "Shangrla.RiskLimit.example_style_exact",
+              # with C02 (plurality, polling) and C03/C06 (card-level comparison); sampling with replacement
+              "Shangrla.RiskLimit.plurality_null", "Shangrla.RiskLimit.plurality_polling_risk_limit",
+              "Shangrla.RiskLimit.comparison_null", "Shangrla.RiskLimit.comparison_risk_limit",
+              "Shangrla.RiskLimit.hitIIDG_map", "Shangrla.RiskLimit.audit_risk_limit_iid",
+              "Shangrla.RiskLimit.audit_risk_limit_iid_run"],
     groups={"status": (1200, 12000), "auditrisk": (60, 600)},
     design_ref="DESIGN.md section 5, C09",
     assumptions=["the statistical test and the data extraction (asn.test.test, Assertion.mvrs_to_data) are parameters of "
